@@ -10,7 +10,7 @@ Real code, five rigs:
   E  defaults on real driver / factory objects  (oracle only)
 Oracle (independent of the model): strict on and host absent / other key => ScrapliAuthenticationFailed and the
 server (or the fake library) was shown NO authentication request; argv strict."""
-import asyncio, base64, hashlib, hmac as _hmac, itertools, json, os, shutil, subprocess, tempfile, time
+import asyncio, base64, hashlib, hmac as _hmac, itertools, json, os, shutil, subprocess, tempfile, time, traceback
 from vlib.common import VERIF, Check, run_model
 import translate
 
@@ -66,34 +66,104 @@ def model_entries(entries, host):
     return (",".join(tbl) or "."), (";".join(out) or ".")
 
 
+NEAR = ("sfx", "pfx", "dom", "in", "short", "tail")
+UNUSABLE = ("trunc", "mislabel", "garbage", "bogus")
+
+
+def near_name(host, variant):
+    """a name that is NOT the host but contains it / is contained in it (proper substring relations)"""
+    return {"sfx": host + "1", "pfx": "1" + host, "dom": host + ".example.com", "in": "x" + host + "y",
+            "short": host[:-1], "tail": host[1:]}[variant]
+
+
+def unusable_key(variant, right, other):
+    """a (key type, blob) no ssh library can load; every blob differs from the right one except `mislabel-right`"""
+    wrong = "ssh-rsa" if other[0] != "ssh-rsa" else "ssh-ed25519"
+    wrong_r = "ssh-rsa" if right[0] != "ssh-rsa" else "ssh-ed25519"
+    n = max(8, (len(right[1]) // 2) // 4 * 4)
+    return {"trunc": (right[0], right[1][:n]), "mislabel": (wrong, other[1]), "garbage": (right[0], "AAAAnotakey"),
+            "bogus": ("ssh-bogus-v9", other[1]), "mislabel-right": (wrong_r, right[1])}[variant]
+
+
 def structured_entries(fmt, content, host, right, other, decoy="192.0.2.1"):
-    """the quantifier's named shapes: plain | comma | hashed  x  absent | right | other.
-    A decoy line for another host holding the RIGHT key is always there."""
+    """the quantifier's named shapes: plain | comma | hashed  x
+         absent | right | other | unusable:<variant> (host present, key no library can load) |
+         nearmiss:<variant> (host ABSENT; a line for a name that contains / is contained in the host holds the RIGHT key).
+    Decoy lines for other hosts are always there: one holding the RIGHT key, one holding an unusable key."""
     salt, salt2 = b"0123456789abcdefghij", b"jihgfedcba9876543210"
     dk = {"plain": [("p", decoy)], "comma": [("p", decoy), ("p", "192.0.2.9")], "hashed": [("h", salt2, decoy)]}[fmt]
     es = [{"ids": dk, "kt": right[0], "key": right[1]}]
-    if content != "absent":
-        kt, key = right if content == "right" else other
+    ut, uk = unusable_key("trunc", right, other)
+    es.append({"ids": [("p", "192.0.2.2")], "kt": ut, "key": uk})
+    kind, _, variant = content.partition(":")
+    if kind == "nearmiss":
+        nm = near_name(host, variant)
+        ids = {"plain": [("p", nm)], "comma": [("p", nm), ("p", "lab-sw1")], "hashed": [("h", salt, nm), ("p", nm)]}[fmt]
+        es.append({"ids": ids, "kt": right[0], "key": right[1]})
+    elif kind != "absent":
+        kt, key = right if kind == "right" else other if kind == "other" else unusable_key(variant, right, other)
         ids = {"plain": [("p", host)], "comma": [("p", "router9"), ("p", host), ("p", "192.0.2.77")],
                "hashed": [("h", salt, host)]}[fmt]
         es.append({"ids": ids, "kt": kt, "key": key})
     return es
 
 
-HOSTS = ["r1", "r2", "10.0.0.1", "127.0.0.1", "r1.example.com", "R1", "r10"]
+CONTENTS_UNTRUSTED = ["absent", "other"] + [f"unusable:{v}" for v in UNUSABLE] + [f"nearmiss:{v}" for v in NEAR]
+CONTENTS_ALL = ["right", "unusable:mislabel-right"] + CONTENTS_UNTRUSTED
+
+# names that are proper prefixes / suffixes / infixes of one another, plus unrelated ones
+HOSTS = ["r1", "r2", "r10", "r11", "xr1", "r", "1", "r1.example.com", "example.com", "R1",
+         "10.0.0.1", "10.0.0.11", "110.0.0.1", "0.0.0.1", "127.0.0.1", "127.0.0.11", "lab-sw1"]
 SALTS = [b"A" * 20, b"B" * 20, bytes(range(20))]
 
 
-def random_entries(rng, keys):
+def random_entries(rng, keys, host=None):
+    """0-6 lines, 1-3 host fields each (plain or hashed, hashed next to its plain twin now and then); the names are drawn
+    around `host`: the host itself, names containing it, names it contains, unrelated names"""
+    pool = HOSTS if host is None else [host] * 3 + [near_name(host, v) for v in NEAR if near_name(host, v)] + HOSTS
     es = []
     for _ in range(rng.choice([0, 1, 2, 3, 4, 6])):
         ids = []
         for _ in range(rng.choice([1, 1, 1, 2, 3])):
-            h = rng.choice(HOSTS)
-            ids.append(("h", rng.choice(SALTS), h) if rng.random() < 0.35 else ("p", h))
+            h = rng.choice(pool)
+            if rng.random() < 0.35:
+                ids.append(("h", rng.choice(SALTS), h))
+                if rng.random() < 0.3:
+                    ids.append(("p", h))
+            else:
+                ids.append(("p", h))
         kt, key = rng.choice(keys)
         es.append({"ids": ids, "kt": kt, "key": key})
     return es
+
+
+_imp_cache = {}
+
+
+def importable(kt, key):
+    """can asyncssh load this known_hosts key (the model's `imp` parameter; independent of scrapli)"""
+    import asyncssh
+    if (kt, key) not in _imp_cache:
+        try:
+            asyncssh.import_public_key(f"{kt} {key}")
+            _imp_cache[(kt, key)] = True
+        except Exception:
+            _imp_cache[(kt, key)] = False
+    return _imp_cache[(kt, key)]
+
+
+def unimportable_field(entries):
+    bad = []
+    for e in entries:
+        if not importable(e["kt"], e["key"]) and (e["kt"], e["key"]) not in bad:
+            bad.append((e["kt"], e["key"]))
+    return ",".join(f"{hx(a)}:{hx(b)}" for a, b in bad) or "."
+
+
+def norm_trace(evs):
+    """property-relevant view of a trace: the class of a final exception matters only as
+    "ScrapliAuthenticationFailed or something else" (which other class is C08's business)"""
+    return [e if not e.startswith("raise:") or e == "raise:AuthenticationFailed" else "raise:Other" for e in evs]
 
 
 # ------------------------------------------------------------------ system transport
@@ -250,36 +320,61 @@ def run(tier, seed):
         lines.append(line)
         checks.append(fn)
 
+    def guarded(name, fn):
+        """an exception escaping a rig because the code under test behaves differently is a broken correspondence
+        (=> exit 1 after the other rigs have searched for a failing input), never a harness failure; only trouble of
+        the rig itself (RigError) is exit 2"""
+        try:
+            fn()
+        except LB.RigError:
+            raise
+        except Exception:
+            ck.proof_broken(f"rig {name} raised on the code under test", traceback.format_exc())
+
     # ================= A: known_hosts lookup
     from scrapli.ssh_config import SSHKnownHosts
-    lk_cases = [(c["entries"], c["host"]) for c in corpus if c.get("kind") == "lookup"]
-    for fmt in ("plain", "comma", "hashed"):
-        for content in ("absent", "right", "other"):
-            lk_cases.append((structured_entries(fmt, content, "r1", k_srv, k_other), "r1"))
-    for _ in range(300 if tier == "quick" else 6000):
-        lk_cases.append((random_entries(ck.rng, keys), ck.rng.choice(HOSTS)))
-    for entries, host in lk_cases:
-        entries = [{"ids": [tuple(i) if i[0] == "p" else (i[0], bytes.fromhex(i[1]) if isinstance(i[1], str) else i[1], i[2]) for i in e["ids"]],
-                    "kt": e["kt"], "key": e["key"]} for e in entries]
-        real = SSHKnownHosts(write_kh(entries)).lookup(host)
-        got = f"{hx(real['key_type'])} {hx(real['public_key'])}" if real else "none"
-        naming = [e for e in entries if names(e, host)]
-        case = {"rig": "lookup", "host": host, "known_hosts": kh_text(entries)}
-        ck.case(("lk", host, kh_text(entries)), nontrivial=len(naming) > 0,
-                tags=("A:lookup", f"A:lines-naming-host={min(len(naming), 3)}"), sample=case)
-        # oracle: what is returned is the key of SOME line naming the host; nothing is returned iff no line names it
-        if real and not any(e["key"] == real["public_key"] for e in naming):
-            ck.violation(case, f"lookup({host}) returned a key no line for that host holds: {real}", matcher)
-        if bool(real) != bool(naming):
-            ck.violation(case, f"lookup({host}) found={bool(real)} but lines naming the host: {len(naming)}", matcher)
-        tbl, ents = model_entries(entries, host)
 
-        def cmp(reply, got=got, case=case):
-            if reply != got:
-                ck.disagree("known_hosts lookup model vs SSHKnownHosts.lookup", case, f"impl={got} model={reply}")
-            else:
-                ck.traces_validated += 1
-        ask(f"lookup {hx(host)} {tbl} {ents}", cmp)
+    def norm_entries(entries):
+        return [{"ids": [tuple(i) if i[0] == "p" else (i[0], bytes.fromhex(i[1]) if isinstance(i[1], str) else i[1], i[2]) for i in e["ids"]],
+                 "kt": e["kt"], "key": e["key"]} for e in entries]
+
+    def rig_A():
+        lk_cases = [(c["entries"], c["host"], "corpus") for c in corpus if c.get("kind") == "lookup"]
+        for h in ("r1", "127.0.0.1"):
+            for fmt in ("plain", "comma", "hashed"):
+                for content in CONTENTS_ALL:
+                    lk_cases.append((structured_entries(fmt, content, h, k_srv, k_other), h, content.split(":")[0]))
+        for _ in range(400 if tier == "quick" else 8000):
+            h = ck.rng.choice(HOSTS)
+            lk_cases.append((random_entries(ck.rng, keys, h if ck.rng.random() < 0.7 else None), h, "random"))
+        for entries, host, kind in lk_cases:
+            entries = norm_entries(entries)
+            text = kh_text(entries)
+            naming = [e for e in entries if names(e, host)]
+            case = {"rig": "lookup", "host": host, "known_hosts": text}
+            near = any(host != i[-1] and (host in i[-1] or i[-1] in host) for e in entries for i in e["ids"])
+            ck.case(("lk", host, text), nontrivial=len(naming) > 0 or near,
+                    tags=("A:lookup", f"A:{kind}", f"A:lines-naming-host={min(len(naming), 3)}", f"A:near-miss-name-present={near}"), sample=case)
+            try:
+                real = SSHKnownHosts(write_kh(entries)).lookup(host)
+                got = f"{hx(real['key_type'])} {hx(real['public_key'])}" if real else "none"
+            except Exception as e:
+                real, got = None, f"EXC:{type(e).__name__}"
+                ck.violation(case, f"SSHKnownHosts(...).lookup({host}) raised {e!r} on a well-formed known_hosts file", matcher)
+            # oracle: what is returned is the key of SOME line naming the host; nothing is returned iff no line names it
+            if real and not any(e["key"] == real["public_key"] for e in naming):
+                ck.violation(case, f"lookup({host}) returned a key no line for that host holds: {real}", matcher)
+            if real is not None and bool(real) != bool(naming):
+                ck.violation(case, f"lookup({host}) found={bool(real)} but lines naming the host: {len(naming)}", matcher)
+            tbl, ents = model_entries(entries, host)
+
+            def cmp(reply, got=got, case=case):
+                if reply != got:
+                    ck.disagree("known_hosts lookup model vs SSHKnownHosts.lookup", case, f"impl={got} model={reply}")
+                else:
+                    ck.traces_validated += 1
+            ask(f"lookup {hx(host)} {tbl} {ents}", cmp)
+    guarded("A (known_hosts lookup)", rig_A)
 
     # ================= B: library fakes
     have_ssh2 = LF.ssh2_available()
